@@ -613,7 +613,14 @@ def ob_routes(ctx: Ctx) -> Outcome:
     if not sites:
         return Outcome.undecided("ast-shape", "no grammar-returning site found")
     if wits:
-        return Outcome.refuted("ast-shape", wits, count=len(sites))
+        from props import C12_b
+        from verif.common import shape_verdict
+
+        def probe():
+            o = C12_b.ob_b2(ctx)
+            return o.status == "refuted", (o.witnesses[0].what if o.witnesses else "packaged schemas and grammar hints are well-formed")
+
+        return shape_verdict("ast-shape", [w.what for w in wits], probe, len(sites))
     return Outcome.ok("ast-shape", count=len(sites), sites=sites)
 
 
